@@ -639,3 +639,109 @@ func (g *Gen) genParse(p *Prog) {
 	}
 	p.Exec(fmt.Sprintf("parse %d %d %x", z, base, s))
 }
+
+// float64 bit patterns of interest
+func (g *Gen) f64bits() uint64 {
+	switch g.intn(10) {
+	case 0:
+		return []uint64{0, 1 << 63, 0x7ff0000000000000, 0xfff0000000000000, 0x7ff8000000000001, 1, 2, 0x000fffffffffffff,
+			0x0010000000000000, 0x7fefffffffffffff, 0x3ff0000000000000, 0x3fe0000000000000, 0x4340000000000000, 0x433fffffffffffff}[g.intn(14)]
+	case 1: // subnormal
+		return g.r.Uint64() & 0x800fffffffffffff >> uint(g.intn(52))
+	case 2: // small integers / halves
+		return math.Float64bits(float64(g.intn(4000)-2000) / float64(int(1)<<uint(g.intn(8))))
+	case 3: // powers of ten and neighbours
+		f := math.Pow(10, float64(g.intn(617)-308))
+		return math.Float64bits(f) + uint64(g.intn(3)) - 1
+	default:
+		b := g.r.Uint64()
+		if (b>>52)&0x7ff == 0x7ff {
+			b &^= 1 << 62
+		}
+		return b
+	}
+}
+
+// genFloat: binary floating-point conversions (C15).
+func (g *Gen) genFloat(p *Prog) {
+	switch g.intn(6) {
+	case 0, 1: // SetFloat64
+		z := p.Load(g.receiver(g.prec(true), g.mode()))
+		if g.chance(0.2) { // enough precision for the full expansion
+			p.setprec(z, uint(770+g.intn(40)))
+		}
+		p.Exec(fmt.Sprintf("setfloat64 %d %016x", z, g.f64bits()))
+	case 2, 3: // Float64 / Float32
+		var x Val
+		switch g.intn(5) {
+		case 0, 1: // a float64 value, exactly or perturbed far below one ulp
+			f := math.Float64frombits(g.f64bits())
+			if math.IsNaN(f) || math.IsInf(f, 0) || f == 0 {
+				f = 1.5
+			}
+			d := new(decimal.Decimal).SetPrec(800).SetFloat64(f)
+			if g.chance(0.5) {
+				// midpoint to the next float64: exactly, or perturbed in the 40th..700th digit
+				nf := math.Nextafter(f, math.Inf(1))
+				if !math.IsInf(nf, 0) {
+					d2 := new(decimal.Decimal).SetPrec(800).SetFloat64(nf)
+					d.Add(d, d2)
+					d.Quo(d, decimal.NewDecimal(2, 0))
+				}
+			}
+			if g.chance(0.6) {
+				e := d.MantExp(nil) - 20 - g.intn(300)
+				eps := new(decimal.Decimal).SetMantExp(decimal.NewDecimal(int64(1+g.intn(9)), 0), e)
+				if g.chance(0.5) {
+					eps.Neg(eps)
+				}
+				d.Add(d, eps)
+			}
+			m, e := d.BitsExp()
+			var sb strings.Builder
+			for i := len(m) - 1; i >= 0; i-- {
+				fmt.Fprintf(&sb, "%019d", uint64(m[i]))
+			}
+			x = Val{Form: 1, Neg: d.Signbit(), Digits: trimZeros(sb.String()), Exp: int64(e), Mode: g.mode()}
+			x.Prec = uint(len(x.Digits))
+		case 2:
+			x = g.special()
+		default:
+			x = g.finite()
+			if g.chance(0.8) {
+				x.Exp = int64(g.intn(700) - 350)
+			}
+		}
+		xi := p.Load(x)
+		p.Exec(fmt.Sprintf("float64 %d", xi))
+		if g.chance(0.4) {
+			p.Exec(fmt.Sprintf("float32 %d", xi))
+		}
+	case 4: // SetFloat(big.Float)
+		z := p.Load(g.receiver(g.prec(true), g.mode()))
+		fprec := 1 + g.intn(200)
+		if g.chance(0.1) {
+			fprec = 1 + g.intn(2000)
+		}
+		if g.chance(0.1) {
+			p.Exec(fmt.Sprintf("setfloat %d %d %d inf", z, fprec, g.intn(2)))
+			return
+		}
+		mant := new(big.Int).Rand(g.r, new(big.Int).Lsh(big.NewInt(1), uint(fprec)))
+		if g.chance(0.05) {
+			mant.SetInt64(0)
+		}
+		e2 := g.intn(601) - 300
+		if g.chance(0.3) {
+			e2 = g.intn(41) - 20 - fprec
+		}
+		p.Exec(fmt.Sprintf("setfloat %d %d %d %s %d", z, fprec, g.intn(2), bigToWords(mant), e2))
+	default: // Float(big.Float)
+		x := g.any()
+		if x.Form == 1 {
+			x.Exp = int64(g.intn(401) - 200)
+		}
+		xi := p.Load(x)
+		p.Exec(fmt.Sprintf("float %d %d %d", xi, 1+g.intn(300), g.intn(6)))
+	}
+}
